@@ -794,9 +794,13 @@ class SecureSequenceTimer:
             )
             self.timekeeper = True
         except asyncio.CancelledError:
-            if waiter_fut.cancelled():
+            current_task = asyncio.current_task()
+            if waiter_fut.cancelled() and not (
+                current_task is not None and current_task.cancelling()
+            ):
                 # `stop()` while synchronizing - eg. the user disconnected
                 raise IPSecureError("Timer synchronization aborted") from None
+            # this task is being cancelled
             raise
         finally:
             self._expected_notify_handler = None
